@@ -307,7 +307,7 @@ add("wr_datablock_dfcc", ["C10", "C09", "C01", "C18"], ["tu/writer_blk_dfcc.c", 
 add("wr_compress_dfcc", ["C12", "C09", "C01"], ["tu/writer_blk_dfcc.c", "$REPO/mtbl/varint.c"], "h_compress_block_dfcc", mode="dfcc", enforce="_mtbl_writer_compress_block/_mtbl_writer_compress_block__spec",
     replace=["mtbl_compress/mtbl_compress__cap", "mtbl_compress_level/mtbl_compress_level__cap", "mtbl_crc32c/mtbl_crc32c__cap", "free/free__cap"], unwind=16, timeout=900, slice=1, strength="U",
     functions=["_mtbl_writer_compress_block"], assumptions=WB_ASSUME + ["the codec reports success (failure stops at the function's assert: permitted loud stop)"])
-add("wr_finish_dfcc", ["C10", "C09", "C12", "C01", "C18"], ["tu/writer_blk_dfcc.c", "$REPO/mtbl/varint.c"], "h_finish_dfcc", mode="dfcc", enforce="_mtbl_writer_finish/_mtbl_writer_finish__spec",
+add("wr_finish_dfcc", ["C10", "C09", "C12", "C01", "C18", "C20"], ["tu/writer_blk_dfcc.c", "$REPO/mtbl/varint.c"], "h_finish_dfcc", mode="dfcc", enforce="_mtbl_writer_finish/_mtbl_writer_finish__spec",
     replace=["_mtbl_writer_flush/_mtbl_writer_flush__cap", "result_handler_destroy/result_handler_destroy__cap", "block_builder_finish/block_builder_finish__cap", "block_builder_reset/block_builder_reset__cap",
              "mtbl_crc32c/mtbl_crc32c__cap", "_mtbl_writer_write_block/_mtbl_writer_write_block__cap", "metadata_write/metadata_write__cap", "_write_all/_write_all__cap2", "free/free__cap"],
     unwind=24, timeout=900, slice=1, strength="U", functions=["_mtbl_writer_finish"], assumptions=WB_ASSUME)
